@@ -17,6 +17,40 @@ NOT_APPLICABLE = {
 
 # property id -> dict(level, text, note, technique, design_ref, module)
 CLAIMED = {
+    "C02": dict(
+        level="exploration",
+        technique="deterministic simulation: seeded single-actor histories (filter edits, applies, hierarchy refreshes, repeated exports under a virtual clock) over in-memory, file, basin-backed, hierarchy-child and tdms sources; generator-array oracle through h5py and dclab",
+        design_ref="DESIGN.md section 4 (C02)",
+        text=("Seeded histories (<=16 operations) over in-memory, lazily indexed in-memory, hdf5, basin-backed, hierarchy-child (depth <=2), "
+              "tdms-fixture and re-opened product datasets: filter edits, applies, refreshes and selection sizes {0, 1, c-1, c, c+1, 2c, "
+              "2c+1, all} relative to the export chunk length under chunk-size knobs; after every export.hdf5 the product is read "
+              "through raw h5py and through dclab and must hold exactly the requested features, the generator's arrays restricted to "
+              "the selected events (all when unfiltered) in order and bit-identical, event count = len = number selected, the source's "
+              "measurement and user metadata (documented exceptions only), and the prefixed logs and tables (cells and attributes); "
+              "export.tsv: same selection and columns, values within 1e-9 relative, NaN/inf preserved; empty selection: no events."),
+        note=("Sampling. Source truth is the generator's arrays (hierarchy: restricted along the ancestors' filters; basins: the origin's "
+              "arrays); only tdms fixtures and one ancillary feature are read through dclab before export. basins=True is C07's. Two "
+              "known findings (empty-prefix log collision, negative values in unsigned features)."),
+    ),
+    "C07": dict(
+        level="exploration",
+        technique="deterministic simulation: seeded histories of origins, chained filtered exports (files and hierarchy children), explicit mapped/unmapped/internal basins, copy tools and a file-system actor (move together, move referrer, delete/rename/replace origin); provider-identifying data",
+        design_ref="DESIGN.md section 4 (C07)",
+        text=("Seeded histories over up to 18 files in three directories: origins whose scalar, image, mask, contour and trace values "
+              "encode (measurement, event); exports with basins (filtered or not, with or without stored features, from files and from "
+              "hierarchy children of depth 1-2) chained to depth 4; referrers with explicit store_basin calls (unmapped, subset, superset "
+              "with repeats, permutation, maps longer than a chunk, feature restrictions, explicit map names, two basins, internal "
+              "basins, own features with deliberately different values); compress/repack copies; a file-system actor moves referrer and "
+              "origin together, moves the referrer alone, deletes, renames or replaces origins by another measurement. After every step "
+              "each affected file is read completely through the dataset and through each basin separately with every access pattern: "
+              "values must be the origin's at the root events the model composes from the applied filter arrays, stored features win, "
+              "lengths equal the event count, a feature is available while a stored location points to the intended target and absent "
+              "(KeyError) rather than foreign data otherwise."),
+        note=("Sampling. Where a file reaches a feature through several equally ranked basins with different data every such provider "
+              "is accepted. Origins always carry identifiers (a referrer without identifier gives 'no certainty' by dclab's own "
+              "documentation). Only file and internal basins (remote ones are C14's); checker threads run unscheduled (they only test "
+              "file existence)."),
+    ),
     "C14": dict(
         level="exploration",
         technique="deterministic simulation: generated basin graphs over local files and a simulated network (HTTP object hosts, stubbed S3, fake DCOR API), real availability-checker threads under a seeded baton-passing scheduler with network/lock/source-line yield points, weather faults, provider-identifying data, reachability reference model",
@@ -192,7 +226,7 @@ CLAIMED = {
 
 # properties whose checks are still under construction (kept in not_applicable with that
 # reason until the check exists, so that MANIFEST.json is valid and honest at every commit)
-PENDING = ["C02", "C07"]
+PENDING = []
 for _p in PENDING:
     if _p not in CLAIMED:
         NOT_APPLICABLE[_p] = "not claimed yet: check under construction (designed in DESIGN.md section 4; will be claimed once its machinery is committed)"
